@@ -6,16 +6,23 @@
 //
 //	c20 <cfg> <family> <p1> <p2> <rpc> <variant> <mode> <ms> <model…> [tuples… req…]
 //
-//	cfg     v1 | b1 (breadth limit 1) | v2 (weighted_graph_check) | pipe (pipeline_list_objects) | cache
+//	cfg     v1 | b1 (breadth limit 1) | v2 (weighted_graph_check) | pipe (pipeline_list_objects) | cache |
+//	        cut (ListUsers / ListObjects max-results 3) | opt (check + list-objects optimizations)
+//	        every server reads through the iterator-accounting wrapper of acct.go
 //	family  ring k -      a membership cycle of k groups
 //	        fan  w -      fan-out w (w groups below one object, w objects for one user)
 //	        tree b d      a ladder DAG of depth d, b folders per level: b^d paths through tuple-to-userset
 //	        rand seed n   model and tuples from the shared generator (harness/fga)
-//	rpc     check | batch | listobjects | streamed | listusers | expand
+//	        wide w -      w parents and w usersets on one document, the user allowed through every one (early hit)
+//	        res seed flt  resources family: explicit tuples, contextual tuples and request on the line (sorted reads that
+//	                      end on a duplicate object, contextual tuples repeating stored ones, many more matching users than
+//	                      max-results); flt = - | errK | cancelK: datastore fault on the K-th Next; variant = repetitions
+//	rpc     check | batch | listobjects | streamed | listusers | expand | read
 //	mode    none (no deadline; the context is cancelled only after the call returned, as gRPC does)
 //	        deadline ms | cancel ms (client cancellation after ms)
 //
-// Output: res=<class> t=<ontime|late|hang> g=<ok|lazy|leak:N> [stk=…]
+// Output: res=<class> t=<ontime|late|hang> g=<ok|lazy|leak:N> it=<ok|open:N:kinds> [stk=…]
+//   - it=open: N iterators handed out by the datastore during the case were still not stopped 3 s after the call returned
 //   - late: the call returned later than ms + slack (15 s), three times in a row; hang: it had not returned 15 s
 //     (thorough: 30 s) after that
 //   - leak: runtime.NumGoroutine() did not settle back to the value before the call within 10 s, and running
